@@ -1,9 +1,12 @@
 // C18: coroutine primitives (Scheduler, Channel, Mutex, Semaphore, Broadcast, Condition) -
-// exhaustive enumeration of PROGRAMS (<=3 routines x scripts over a small op alphabet) x MAIN-CONTEXT schedules (scheduler rounds with
-// resume(r) / cancel(r) / cleanup placed before every round and at idle), run on the real classes with a real event::Loop, checked
-// against a reference model + quiescence invariants. Coroutine scheduling is deterministic, so scripts x main schedules is the whole space.
+// exhaustive enumeration of PROGRAMS (<=4 routines x scripts over a small op alphabet) x MAIN-CONTEXT schedules (scheduler rounds with
+// resume(r) / cancel(r) / cleanup and the main context's own send / release / broadcast post / condition post placed before every
+// round and at idle), run on the real classes with a real event::Loop, checked against a reference model + quiescence invariants.
+// Coroutine scheduling is deterministic, so scripts x main schedules is the whole space.
+// The first mid-run cleanup() does not end a run: the program's routines are created again on the SAME Scheduler and primitives
+// (second session; the model carries the channel contents, semaphore units and mutex holder over), then the schedule goes on.
 //
-//   harness enum <tag> <ops,comma-separated> <NR> <maxlen> <maxacts> <param> <part> <nparts> [max total steps]
+//   harness enum <tag> <ops,comma-separated> <NR> <maxlen> <maxacts> <param> <part> <nparts> [max total steps [flags: nomain,noreuse]]
 //   harness replay "<replay text of a @VIOL line>"          (prints the trace, the idle state and the violations of that one run)
 //
 // Oracle = property C18 statement only:
@@ -11,10 +14,14 @@
 //   * at most one mutex holder; semaphore acquisitions <= releases + initial count
 //   * whenever the scheduler has no ready routine: nobody suspended on a free mutex / positive semaphore / non-empty channel /
 //     broadcast posted or condition satisfied after it began waiting / join whose target finished          (no lost wake-ups)
-//   * cancel(r) / cleanup(): every started routine returns failure from its blocking call and terminates
+//     - free / positive / non-empty / posted / satisfied are decided by the reference model, never by the implementation's bookkeeping;
+//       a condition value posted between add() and wait() has happened (the set is reduced whether or not somebody waits yet)
+//   * cancel(r) / cleanup(): every started routine returns failure from its blocking call and terminates; conversely recv / lock /
+//     acquire / broadcast-wait report failure only to a routine that was cancelled or cleaned up
 //   * join returns success only once its target has finished
+//   * a routine created suspended (run_now = false) need not start until somebody resumes or cancels it; after that it must
 // Routines check the return code of every blocking call and leave on failure (releasing a held mutex, as Mutex::Locker would).
-// Signature = <what>[:waiter-still-queued|:waiter-not-queued]:main=<kinds of main-context action needed>:steps=<program size class>.
+// Signature = <what>[:waiter-still-queued|:waiter-not-queued]:main=<kinds of main-context action needed: resume, cancel, post, reuse>:steps=<program size class>.
 // A supervising parent forks the enumerating child; a run that never ends (CPU watchdog, confirmed by repeating it) or kills the
 // child is reported with the run that was executing, and the enumeration continues after that program.
 #include <tbox/coroutine/scheduler.cpp>   // file-local Scheduler::Data / Routine are needed for the quiescence check
@@ -45,22 +52,32 @@ using namespace tbox::coroutine;
 
 static double now_s() { using namespace std::chrono; return duration_cast<duration<double>>(steady_clock::now().time_since_epoch()).count(); }
 
+// cwait = add(1), add(2), wait() in one step (the documented use); cadd / cadd1 / cadd2 = add() only (both values / one value),
+// cw = wait() only - so that posts can fall between add() and wait(), add() can be called during a wait, and one-element sets exist.
+// createS = create(run_now = false) (child stays suspended until somebody resumes or cancels it), resumec = resume(child) from a routine,
+// cancel+0 = a routine cancels itself. crit = lock(); yield(); unlock() in one step (a critical section that is left for one round, the
+// Mutex::Locker shape) - lets 4 routines contend for the mutex with one-step scripts.
 enum Op { YIELD, SEND, RECV, LOCK, UNLOCK, ACQ, REL, BWAIT, BPOST, CWAIT, CPOST1, CPOST2,
-          JOIN1, JOIN2, CANCEL1, CANCEL2, CREATEY, CREATEW, JOINC, CANCELC, NOPS };
+          JOIN1, JOIN2, CANCEL1, CANCEL2, CREATEY, CREATEW, JOINC, CANCELC,
+          CADD, CADD1, CADD2, CW, CREATES, RESUMEC, CANCEL0, CRIT, NOPS };
 static const char *kOpName[] = {"yield", "send", "recv", "lock", "unlock", "acq", "rel", "bwait", "bpost", "cwait", "cpost1", "cpost2",
-                                "join+1", "join+2", "cancel+1", "cancel+2", "createY", "createW", "joinc", "cancelc"};
+                                "join+1", "join+2", "cancel+1", "cancel+2", "createY", "createW", "joinc", "cancelc",
+                                "cadd", "cadd1", "cadd2", "cw", "createS", "resumec", "cancel+0", "crit"};
 static int op_by_name(const std::string &s) { for (int i = 0; i < NOPS; i++) if (s == kOpName[i]) return i; return -1; }
 
-static const int MAXR = 5, MAXLEN = 4, MAXPASS = 40, MAXTAIL = MAXPASS + 1;
+static const int MAXNR = 4, MAXR = 12, MAXLEN = 4, MAXPASS = 40, MAXTAIL = MAXPASS + 1;   // MAXR: 2 sessions x (4 routines + 2 children)
 static const size_t STACK = 64 * 1024;   // stack size is not part of the property; generous so the harness body fits
 
 struct Script { uint8_t n = 0; uint8_t op[MAXLEN] = {0, 0, 0, 0}; };
-struct Prog { int nr = 0; Script s[3]; int param = 0; };
-enum ActKind { A_PASS, A_RESUME, A_CANCEL, A_CLEANUP };
+struct Prog { int nr = 0; Script s[MAXNR]; int param = 0; };
+// main-context actions: besides resume / cancel / cleanup the main context also PRODUCES (all of these calls are legal outside a routine):
+// channel << v, semaphore.release(), broadcast.post(), condition.post(1|2)
+enum ActKind { A_PASS, A_RESUME, A_CANCEL, A_CLEANUP, A_SEND, A_REL, A_BPOST, A_CPOST1, A_CPOST2, NACTS };
 struct Act { uint8_t k, r; };
 
 static std::string script_str(const Script &s) { std::string o = "["; for (int i = 0; i < s.n; i++) { if (i) o += ' '; o += kOpName[s.op[i]]; } return o + "]"; }
-static std::string act_str(const Act &a) { char b[24]; switch (a.k) { case A_PASS: return "pass"; case A_RESUME: snprintf(b, 24, "resume(r%d)", a.r); return b; case A_CANCEL: snprintf(b, 24, "cancel(r%d)", a.r); return b; default: return "cleanup"; } }
+static std::string act_str(const Act &a) { char b[24]; switch (a.k) { case A_PASS: return "pass"; case A_RESUME: snprintf(b, 24, "resume(r%d)", a.r); return b; case A_CANCEL: snprintf(b, 24, "cancel(r%d)", a.r); return b;
+  case A_SEND: return "send"; case A_REL: return "rel"; case A_BPOST: return "bpost"; case A_CPOST1: return "cpost1"; case A_CPOST2: return "cpost2"; default: return "cleanup"; } }
 static std::string run_str(const Prog &p, const std::vector<Act> &sc) {
   std::string o = "param=" + std::to_string(p.param) + " |";
   for (int r = 0; r < p.nr; r++) o += " r" + std::to_string(r) + "=" + script_str(p.s[r]);
@@ -72,7 +89,7 @@ static std::string run_str(const Prog &p, const std::vector<Act> &sc) {
 // shared memory between the supervising parent and the enumerating child (survives hang / crash of the child)
 struct Shm {
   volatile long cur_prog; volatile int phase; volatile int finished; volatile int capped;
-  volatile long loops, programs, executions, transitions, states, traces, qchecks, viol_runs, cancels, cleanups_mid;
+  volatile long loops, programs, executions, transitions, states, traces, qchecks, viol_runs, cancels, cleanups_mid, mainposts, sessions2;
   Prog prog; int nsched; Act sched[2 * MAXTAIL + 8];   // the run being executed (formatted by the parent if the child dies)
 };
 static Shm *shm;
@@ -85,81 +102,127 @@ static bool g_info_only = false;
 struct RInfo {
   RoutineToken tok; Script sc; int pc = 0; int blocked = -1; int barg = -1;
   bool created = false, started = false, finished = false, failed = false, cancel_issued = false, must_fail = false; int child = -1;
+  int base = -1;            // index of routine 0 of the session this routine belongs to (-1: a child made by a create step)
+  bool susp = false;        // created with run_now = false
+  bool kicked = false;      // somebody resumed or cancelled it (a suspended-created routine has to start only after that)
+  bool dropped = false;     // never started, removed by cleanup()
 };
 struct World {
   Scheduler *sch; Channel<int> *ch; Mutex *mu; Semaphore *sem; Broadcast *bc; Condition<int> *cond;
   RInfo R[MAXR]; int nrt, NR;
   int sent, nrecv; unsigned holders; int acq, rel, init;
   bool bposted[MAXR]; int cwaiter; unsigned cpending; bool csat; bool any_logic;
-  unsigned mainmask;
+  unsigned mainmask; unsigned epoch; bool in_cleanup; int nchild;   // nchild: children made in the current session
   std::vector<std::pair<std::string, std::string>> viols; std::vector<uint32_t> trace;
 };
 static World g;
 
-static const char *mask_name(unsigned m) { static const char *n[] = {"none", "resume", "cancel", "resume+cancel"}; return n[m & 3]; }
+// kinds of main-context action that preceded a violation: resume, cancel, post (= a main-context send / release / post), reuse (= the
+// scheduler and the primitives were used again after a mid-run cleanup())
+static std::string mask_name(unsigned m) { static const char *n[] = {"resume", "cancel", "post", "reuse"}; std::string o;
+  for (int i = 0; i < 4; i++) if (m >> i & 1) { if (!o.empty()) o += '+'; o += n[i]; } return o.empty() ? "none" : o; }
 static void viol(const std::string &base) {   // base signature; the label says which kinds of main-context actions preceded it
   for (auto &v : g.viols) if (v.first == base) return;
   g.viols.push_back({base, mask_name(g.mainmask)});
 }
-static inline void ev(int r, int op, int v) { g.trace.push_back((uint32_t)(r << 24 | op << 16 | (v & 0xffff))); }
+static inline void ev(int r, int op, int v) { g.epoch++; g.trace.push_back((uint32_t)(r << 24 | op << 16 | (v & 0xffff))); }
 static bool rc_blocking(int op) { return op == RECV || op == LOCK || op == ACQ || op == BWAIT || op == CWAIT || op == JOIN1; }
 
 static void do_cancel(int t) {   // cancel issued by the main context or by a routine
   RInfo &T = g.R[t]; if (!T.created) return;
   bool live = !T.finished;
-  if (live) { T.cancel_issued = true; if (T.started && rc_blocking(T.blocked)) T.must_fail = true; }
-  shm->cancels++;
+  if (live) { T.cancel_issued = true; T.kicked = true; if (T.started && rc_blocking(T.blocked)) T.must_fail = true; }
+  shm->cancels++; g.epoch++;
   g.sch->cancel(T.tok);
+}
+static void do_resume(int t) {   // resume issued by the main context or by a routine
+  RInfo &T = g.R[t]; if (!T.created) return;
+  if (!T.finished) T.kicked = true;
+  g.epoch++;
+  g.sch->resume(T.tok);
+}
+// producer operations: issued by a routine step or by the main context, same reference-model bookkeeping
+static int do_send() { int v = ++g.sent; (*g.ch) << v; return v; }
+static void do_rel() { g.sem->release(); g.rel++; }
+static void do_bpost() {
+  for (int q = 0; q < g.nrt; q++) if (g.R[q].created && !g.R[q].finished && g.R[q].blocked == BWAIT) g.bposted[q] = true;
+  g.bc->post();
+}
+// Condition reference model: cpending = values add()ed and not yet posted (kAll: a post removes its value; kAny: a post of an awaited
+// value removes all), whether or not anybody is waiting yet. The condition becomes SATISFIED at the post that empties the set; the
+// lost-wake-up clause is judged only for a routine that was suspended in wait() at that moment.
+static void do_cpost(int v) {
+  if (g.cpending & v) {
+    if (g.any_logic) g.cpending = 0; else g.cpending &= ~v;
+    if (!g.cpending && g.cwaiter >= 0 && g.R[g.cwaiter].blocked == CWAIT) g.csat = true;
+  }
+  g.cond->post(v);
 }
 
 static void body(int r);
-static int spawn(const Script &sc) {
-  int c = g.nrt++; RInfo &C = g.R[c]; C = RInfo(); C.sc = sc; C.created = true;
-  C.tok = g.sch->create([c](Scheduler &) { body(c); }, true, "r", STACK);
+static int spawn(const Script &sc, int base, bool run_now = true) {
+  int c = g.nrt++; RInfo &C = g.R[c]; C = RInfo(); C.sc = sc; C.created = true; C.base = base; C.susp = !run_now;
+  C.tok = g.sch->create([c](Scheduler &) { body(c); }, run_now, "r", STACK);
   return c;
 }
 
 static void body(int r) {
   RInfo &me = g.R[r]; me.started = true; bool fail = false; bool ok;
   Scheduler &sch = *g.sch;
+  // A blocking call reports failure to a routine that was cancelled (or cleaned up). The converse is judged for recv / lock / acquire /
+  // broadcast-wait only: a routine that nobody cancelled and that leaves such a call with failure has lost the value / mutex / unit /
+  // broadcast it was queued for (join and Condition::wait refuse a second joiner / waiter by design, so they are not judged here).
 #define BLOCK(kind, arg, expr) do { me.blocked = (kind); me.barg = (arg); me.must_fail = false; ok = (expr); me.blocked = -1; \
-    if (ok && me.must_fail) viol(std::string("cancelled-blocking-call-returned-success-") + kOpName[op]); me.must_fail = false; if (!ok) fail = true; } while (0)
+    if (ok && me.must_fail) viol(std::string("cancelled-blocking-call-returned-success-") + kOpName[op]); me.must_fail = false; if (!ok) fail = true; \
+    if (!ok && !me.cancel_issued && !g.in_cleanup && ((kind) == RECV || (kind) == LOCK || (kind) == ACQ || (kind) == BWAIT)) \
+      viol(std::string("blocking-call-failed-although-nobody-cancelled-") + kOpName[op]); } while (0)
   for (me.pc = 0; me.pc < me.sc.n && !fail; me.pc++) {
     int op = me.sc.op[me.pc];
     switch (op) {
       case YIELD: me.blocked = YIELD; sch.yield(); me.blocked = -1; if (sch.isCanceled()) fail = true; ev(r, op, fail); break;
-      case SEND: { int v = ++g.sent; (*g.ch) << v; ev(r, op, v); } break;
+      case SEND: { int v = do_send(); ev(r, op, v); } break;
       case RECV: { int v = -1; BLOCK(RECV, 0, (*g.ch) >> v); ev(r, op, ok ? v : 0);
         if (ok) { g.nrecv++; if (v != g.nrecv) viol(v < g.nrecv ? "channel-value-received-twice-or-out-of-order" : v > g.sent ? "channel-value-never-sent" : "channel-value-skipped-fifo-broken"); } } break;
       case LOCK: BLOCK(LOCK, 0, g.mu->lock()); ev(r, op, ok);
         if (ok) { g.holders |= 1u << r; if (g.holders & (g.holders - 1)) viol("mutex-two-holders"); } break;
+      case CRIT: BLOCK(LOCK, 0, g.mu->lock()); ev(r, LOCK, ok);
+        if (ok) { g.holders |= 1u << r; if (g.holders & (g.holders - 1)) viol("mutex-two-holders");
+          me.blocked = YIELD; sch.yield(); me.blocked = -1;
+          if (sch.isCanceled()) fail = true;            // the failure path below releases the mutex, as Mutex::Locker would
+          else { g.mu->unlock(); g.holders &= ~(1u << r); }
+          ev(r, op, fail); } break;
       case UNLOCK: g.mu->unlock(); g.holders &= ~(1u << r); ev(r, op, 0); break;
       case ACQ: BLOCK(ACQ, 0, g.sem->acquire()); ev(r, op, ok);
         if (ok) { g.acq++; if (g.acq > g.rel + g.init) viol("semaphore-acquisitions-exceed-releases-plus-initial"); } break;
-      case REL: g.sem->release(); g.rel++; ev(r, op, 0); break;
+      case REL: do_rel(); ev(r, op, 0); break;
       case BWAIT: g.bposted[r] = false; BLOCK(BWAIT, 0, g.bc->wait()); ev(r, op, ok); break;
-      case BPOST: for (int q = 0; q < g.nrt; q++) if (g.R[q].created && !g.R[q].finished && g.R[q].blocked == BWAIT) g.bposted[q] = true;
-        g.bc->post(); ev(r, op, 0); break;
-      case CWAIT: {
-        bool mine = g.cwaiter < 0;            // one waiter at a time is the documented use; a second one is refused by wait()
-        if (mine) { g.cond->add(1); g.cond->add(2); g.cwaiter = r; g.cpending = 3; g.csat = false; }
+      case BPOST: do_bpost(); ev(r, op, 0); break;
+      case CADD: case CADD1: case CADD2: { int m = op == CADD ? 3 : op == CADD1 ? 1 : 2;
+        if (m & 1) g.cond->add(1); if (m & 2) g.cond->add(2); g.cpending |= m; ev(r, op, 0); } break;
+      case CWAIT: case CW: {
+        // one waiter at a time is the documented use; a second one, or a wait on an empty set, is refused by wait() (not judged)
+        if (op == CWAIT && g.cwaiter < 0) { g.cond->add(1); g.cond->add(2); g.cpending |= 3; }
+        bool mine = g.cwaiter < 0 && g.cpending != 0;
+        if (mine) { g.cwaiter = r; g.csat = false; }
+        unsigned e0 = g.epoch;
         BLOCK(CWAIT, 0, g.cond->wait()); ev(r, op, ok);
-        if (mine) g.cwaiter = -1; } break;
-      case CPOST1: case CPOST2: { int v = op == CPOST1 ? 1 : 2;
-        if (g.cwaiter >= 0 && g.R[g.cwaiter].blocked == CWAIT && (g.cpending & v)) { if (g.any_logic) { g.cpending = 0; } else g.cpending &= ~v; if (!g.cpending) g.csat = true; }
-        g.cond->post(v); ev(r, op, 0); } break;
+        // a wait that really suspended consumes the set when it returns; a refused wait() (it came back at once) changes nothing
+        if (mine) { g.cwaiter = -1; g.csat = false; if (g.epoch != e0) g.cpending = 0; } } break;
+      case CPOST1: case CPOST2: do_cpost(op == CPOST1 ? 1 : 2); ev(r, op, 0); break;
       case JOIN1: case JOIN2: case JOINC: {
-        int t = op == JOINC ? me.child : (r < g.NR ? (r + (op == JOIN1 ? 1 : 2)) % g.NR : -1);
+        int t = op == JOINC ? me.child : (me.base >= 0 ? me.base + (r - me.base + (op == JOIN1 ? 1 : 2)) % g.NR : -1);
         if (t < 0 || t == r || !g.R[t].created) { ev(r, op, 9); break; }
         BLOCK(JOIN1, t, sch.join(g.R[t].tok)); ev(r, op, ok);
         if (ok && !g.R[t].finished) viol("join-returned-success-before-target-finished"); } break;
-      case CANCEL1: case CANCEL2: case CANCELC: {
-        int t = op == CANCELC ? me.child : (r < g.NR ? (r + (op == CANCEL1 ? 1 : 2)) % g.NR : -1);
-        if (t < 0 || t == r || !g.R[t].created) { ev(r, op, 9); break; }
+      case CANCEL0: case CANCEL1: case CANCEL2: case CANCELC: {
+        int t = op == CANCELC ? me.child : op == CANCEL0 ? r : (me.base >= 0 ? me.base + (r - me.base + (op == CANCEL1 ? 1 : 2)) % g.NR : -1);
+        if (t < 0 || (t == r && op != CANCEL0) || !g.R[t].created) { ev(r, op, 9); break; }
         do_cancel(t); ev(r, op, 0); } break;
-      case CREATEY: case CREATEW: {
-        if (g.nrt >= MAXR) { ev(r, op, 9); break; }
-        Script cs; cs.n = 1; cs.op[0] = op == CREATEY ? YIELD : BWAIT; me.child = spawn(cs); ev(r, op, me.child); } break;
+      case RESUMEC: { int t = me.child; if (t < 0 || !g.R[t].created) { ev(r, op, 9); break; } do_resume(t); ev(r, op, 0); } break;
+      case CREATEY: case CREATEW: case CREATES: {
+        if (g.nrt >= MAXR || g.nchild >= 2) { ev(r, op, 9); break; }
+        g.nchild++;
+        Script cs; cs.n = 1; cs.op[0] = op == CREATEW ? BWAIT : YIELD; me.child = spawn(cs, -1, op != CREATES); ev(r, op, me.child); } break;
     }
   }
   if (fail) { me.failed = true; if (g.holders & (1u << r)) { g.mu->unlock(); g.holders &= ~(1u << r); } }
@@ -174,6 +237,8 @@ template <class Q> static bool queued(const Q &q, const RoutineToken &t) { for (
 static bool quiescent() { return g.sch->d_->ready_routines.empty(); }
 
 static std::unordered_set<size_t> g_states, g_traces;
+static bool g_reuse = true;                 // second session after the first mid-run cleanup (flag "noreuse" turns it off)
+static std::vector<uint8_t> g_main_ops;     // producer actions of the main context enabled for this family
 
 // invariants that hold at every point the main context has control
 static void model_check() {
@@ -196,7 +261,8 @@ static void qcheck() {
     char b[64]; snprintf(b, sizeof b, "%d.%d.%d.%d%d%d%d.%d;", X.pc, X.blocked, X.barg, X.started, X.finished, X.failed, rt ? (int)rt->is_canceled : 2, rt ? (int)rt->state : 9); canon += b;
     if (X.finished) { if (rt) viol("finished-routine-still-registered"); continue; }
     if (!rt) { viol("unfinished-routine-vanished"); continue; }
-    if (!X.started) { viol("created-routine-never-started-although-idle"); continue; }
+    if (!X.started && X.susp && !X.kicked) continue;      // create(run_now = false): stays suspended until somebody resumes or cancels it
+    if (!X.started) { viol(X.susp ? "suspended-created-routine-resumed-or-cancelled-but-never-started-although-idle" : "created-routine-never-started-although-idle"); continue; }
     if (X.cancel_issued) viol("cancelled-routine-not-terminated-when-idle");
     const char *where = "";
     switch (X.blocked) {
@@ -220,7 +286,7 @@ static void qcheck() {
   if (g_states.insert(std::hash<std::string>()(canon)).second) shm->states++;
 }
 
-struct RunOut { int tail_passes = 0; uint8_t alive_at[MAXTAIL + 1]; bool cleaned = false; std::vector<std::pair<std::string, std::string>> viols; std::string trace; std::string outcome; };
+struct RunOut { int tail_passes = 0; uint16_t alive_at[MAXTAIL + 1]; bool cleaned = false; std::vector<std::pair<std::string, std::string>> viols; std::string trace; std::string outcome; };
 
 static std::string trace_str() {
   std::string o;
@@ -275,20 +341,30 @@ static RunOut run(const Prog &p, const std::vector<Act> &sched, bool want_text) 
     g.sch = &sch; g.ch = &ch; g.mu = &mu; g.sem = &sem; g.bc = &bc; g.cond = &cond;
     g.nrt = 0; g.NR = p.nr; g.sent = g.nrecv = 0; g.holders = 0; g.acq = g.rel = 0; g.init = p.param; g.any_logic = p.param != 0;
     for (int i = 0; i < MAXR; i++) { g.R[i] = RInfo(); g.bposted[i] = false; }
-    g.cwaiter = -1; g.cpending = 0; g.csat = false; g.mainmask = 0; g.viols.clear(); g.trace.clear();
-    int npass = 0, k = 0; size_t ai = 0; bool cleaned = false, first = true, tail = false;
-    auto cleanup = [&] {
+    g.cwaiter = -1; g.cpending = 0; g.csat = false; g.mainmask = 0; g.epoch = 0; g.in_cleanup = false; g.nchild = 0; g.viols.clear(); g.trace.clear();
+    int npass = 0, k = 0, sessions = 1; size_t ai = 0; bool cleaned = false, first = true, tail = false;
+    // cleanup(): every started routine must come back from its blocking call with failure and terminate. The FIRST mid-run cleanup
+    // does not end the run: the same Scheduler and the same primitives (with whatever values / units / holder the first session left,
+    // which the reference model carries over) are used again - the program's routines are created a second time and the schedule goes on.
+    auto cleanup = [&](bool midrun) {
       shm->phase = PH_CLEANUP;
       unsigned must_die = 0;
       for (int r = 0; r < g.nrt; r++) { RInfo &X = g.R[r]; if (X.created && X.started && !X.finished) { must_die |= 1u << r; if (rc_blocking(X.blocked)) X.must_fail = true; } }
-      sch.cleanup(); cleaned = true; shm->transitions++;
+      g.epoch++; g.in_cleanup = true;
+      sch.cleanup(); shm->transitions++;
+      g.in_cleanup = false;
       for (int r = 0; r < g.nrt; r++) {
         RInfo &X = g.R[r]; if (!X.created) continue;
         if ((must_die >> r & 1) && !X.finished) viol("cleanup-started-routine-not-terminated");
         if (!(must_die >> r & 1) && !X.finished && X.started) viol("cleanup-routine-started-during-cleanup-left-alive");
+        if (!X.finished && !X.started) X.dropped = X.finished = true;      // never started: cleanup() just removes it
       }
       if (!sch.d_->routine_cabinet.empty()) viol("cleanup-left-routines-registered");
       model_check();
+      if (midrun && sessions == 1 && g_reuse && g.viols.empty() && g.nrt + p.nr <= MAXR) {
+        sessions = 2; g.mainmask |= 8; g.nchild = 0; shm->sessions2++;
+        int base = g.nrt; for (int r = 0; r < p.nr; r++) spawn(p.s[r], base);
+      } else cleaned = true;
     };
     // Where the main context acts. Leaving runLoop() drains all deferred calls (the scheduler runs until idle), so runLoop(kOnce) per step
     // is too coarse. Instead the loop runs in kForever mode and the main context acts from deferred calls of that loop:
@@ -300,9 +376,11 @@ static RunOut run(const Prog &p, const std::vector<Act> &sched, bool want_text) 
       while (ai < sched.size() && sched[ai].k != A_PASS && !cleaned) {
         const Act &a = sched[ai++];
         shm->phase = PH_ACTION; shm->transitions++;
-        if (a.k == A_RESUME) { g.mainmask |= 1; if (g.R[a.r].created) sch.resume(g.R[a.r].tok); }
+        if (a.k == A_RESUME) { g.mainmask |= 1; do_resume(a.r); }
         else if (a.k == A_CANCEL) { g.mainmask |= 2; do_cancel(a.r); }
-        else { shm->cleanups_mid++; cleanup(); }
+        else if (a.k == A_CLEANUP) { shm->cleanups_mid++; cleanup(true); }
+        else { g.mainmask |= 4; g.epoch++; shm->mainposts++;
+          if (a.k == A_SEND) do_send(); else if (a.k == A_REL) do_rel(); else if (a.k == A_BPOST) do_bpost(); else do_cpost(a.k == A_CPOST1 ? 1 : 2); }
         g.trace.push_back(0xfe000000u | a.k << 8 | a.r);
         shm->phase = PH_PASS;
       }
@@ -317,7 +395,7 @@ static RunOut run(const Prog &p, const std::vector<Act> &sched, bool want_text) 
       if (!tail) apply_actions();
       if (cleaned) { out.alive_at[0] = 0; finish(); return; }
       if (!tail && ai < sched.size()) { ai++; npass++; shm->transitions++; return; }   // `pass`: the round that follows
-      tail = true; out.alive_at[k] = (uint8_t)alive_mask();
+      tail = true; out.alive_at[k] = (uint16_t)alive_mask();
       if (npass >= MAXPASS) { finish(); return; }
       k++; npass++; shm->transitions++;
     };
@@ -333,21 +411,24 @@ static RunOut run(const Prog &p, const std::vector<Act> &sched, bool want_text) 
         if (cleaned) { out.alive_at[0] = 0; finish(); return; }
         if (!quiescent()) { loop->runNext(idle); return; }                        // an action made a routine ready: `hook` goes on
         if (!tail && ai < sched.size()) { ai++; continue; }                       // a `pass` with nothing to run
-        tail = true; out.alive_at[k] = (uint8_t)alive_mask(); finish(); return;
+        tail = true; out.alive_at[k] = (uint16_t)alive_mask(); finish(); return;
       }
     };
     loop->runNext(idle);
-    for (int r = 0; r < p.nr; r++) spawn(p.s[r]);
+    for (int r = 0; r < p.nr; r++) spawn(p.s[r], 0);
     loop->runLoop(event::Loop::Mode::kForever);
     tap.hook = nullptr;
     if (!cleaned && !quiescent()) viol("no-quiescence-within-40-passes");
     out.tail_passes = k; out.cleaned = cleaned;
     // outcome class of the idle state reached (before the final cleanup)
-    { int fin = 0, fl = 0, sus[NOPS] = {0}; for (int r = 0; r < g.nrt; r++) { RInfo &X = g.R[r]; if (X.finished) { X.failed ? fl++ : fin++; } else if (X.blocked >= 0) sus[X.blocked]++; }
+    { int fin = 0, fl = 0, dr = 0, ns = 0, sus[NOPS] = {0}; for (int r = 0; r < g.nrt; r++) { RInfo &X = g.R[r]; if (X.dropped) dr++; else if (X.finished) { X.failed ? fl++ : fin++; } else if (!X.started) ns++; else if (X.blocked >= 0) sus[X.blocked]++; }
       char b[96]; snprintf(b, sizeof b, "routines=%d ended-ok=%d ended-failed=%d suspended:", g.nrt, fin, fl); out.outcome = b;
       for (int o = 0; o < NOPS; o++) if (sus[o]) out.outcome += std::string(" ") + (o == JOIN1 ? "join" : kOpName[o]) + "x" + std::to_string(sus[o]);
-      if (cleaned) out.outcome += " (after mid-run cleanup)"; }
-    if (!cleaned) cleanup();
+      if (ns) out.outcome += " not-started x" + std::to_string(ns);
+      if (dr) out.outcome += " removed-unstarted-by-cleanup x" + std::to_string(dr);
+      if (sessions == 2) out.outcome += cleaned ? " (second session, after its mid-run cleanup)" : " (second session on the cleaned-up scheduler)";
+      else if (cleaned) out.outcome += " (after mid-run cleanup)"; }
+    if (!cleaned) cleanup(false);
     shm->phase = PH_TEARDOWN;
     loop->runNext([] {}); loop->runLoop(event::Loop::Mode::kOnce);   // drain the queued Scheduler::schedule callbacks while the scheduler is alive
     size_t th = 1469598103934665603ull; for (uint32_t e : g.trace) { th ^= e; th *= 1099511628211ull; }
@@ -408,6 +489,10 @@ static void explore(const Prog &p, std::vector<Act> &sched, int acts_left, const
       sched.resize(base); for (int i = 0; i < k; i++) sched.push_back({A_PASS, 0}); sched.push_back({(uint8_t)kind, (uint8_t)r});
       explore(p, sched, acts_left - 1, mine);
     }
+    if (o.alive_at[k]) for (uint8_t kind : g_main_ops) {      // the main context produces: send / release / post
+      sched.resize(base); for (int i = 0; i < k; i++) sched.push_back({A_PASS, 0}); sched.push_back({kind, 0});
+      explore(p, sched, acts_left - 1, mine);
+    }
     if (k < o.tail_passes) { sched.resize(base); for (int i = 0; i < k; i++) sched.push_back({A_PASS, 0}); sched.push_back({A_CLEANUP, 0}); explore(p, sched, acts_left - 1, mine); }
   }
   sched.resize(base);
@@ -433,7 +518,17 @@ static int enum_main(int argc, char **argv) {
   { std::string s = argv[3]; size_t i = 0; while (i <= s.size()) { size_t j = s.find(',', i); if (j == std::string::npos) j = s.size(); int o = op_by_name(s.substr(i, j - i)); if (o < 0) { fprintf(stderr, "bad op %s\n", s.substr(i, j - i).c_str()); return 2; } alpha.push_back(o); i = j + 1; } }
   int NR = atoi(argv[4]), maxlen = atoi(argv[5]), maxacts = atoi(argv[6]), param = atoi(argv[7]); long part = atol(argv[8]), nparts = atol(argv[9]);
   int maxtotal = argc > 10 ? atoi(argv[10]) : NR * maxlen;   // optional bound on the total number of steps of a program
-  if (maxlen > MAXLEN || NR > 3 || NR < 1) return 2;
+  if (maxlen > MAXLEN || NR > MAXNR || NR < 1) return 2;
+  // optional flags: "nomain" = the main context does not produce, "noreuse" = a mid-run cleanup ends the run (no second session)
+  std::string flags = argc > 11 ? argv[11] : "";
+  g_reuse = flags.find("noreuse") == std::string::npos;
+  if (flags.find("nomain") == std::string::npos) {
+    auto has = [&](int o) { for (int a : alpha) if (a == o) return true; return false; };
+    if (has(RECV)) g_main_ops.push_back(A_SEND);
+    if (has(ACQ)) g_main_ops.push_back(A_REL);
+    if (has(BWAIT)) g_main_ops.push_back(A_BPOST);
+    if (has(CWAIT) || has(CW)) { g_main_ops.push_back(A_CPOST1); g_main_ops.push_back(A_CPOST2); }
+  }
   std::vector<Script> scripts = all_scripts(alpha, maxlen);
   long NS = (long)scripts.size(), total = 1; for (int i = 0; i < NR; i++) total *= NS;
   const char *e = getenv("VERIF_DEADLINE_S"); double deadline = now_s() + (e ? atof(e) : 600);
@@ -485,8 +580,8 @@ static int enum_main(int argc, char **argv) {
     start = shm->cur_prog + nparts; shm->programs++;
     if (++restarts >= 4) { printf("@CAP %s: 4 hung/crashed programs in part %ld/%ld, enumeration stopped at program %ld of %ld\n", tag.c_str(), part, nparts, start, total); break; }
   }
-  printf("@STAT loops=%ld programs=%ld executions=%ld transitions=%ld states=%ld traces=%ld quiescent_checks=%ld violating_runs=%ld cancels=%ld midrun_cleanups=%ld\n",
-         shm->loops, shm->programs, shm->executions, shm->transitions, shm->states, shm->traces, shm->qchecks, shm->viol_runs, shm->cancels, shm->cleanups_mid);
+  printf("@STAT loops=%ld programs=%ld executions=%ld transitions=%ld states=%ld traces=%ld quiescent_checks=%ld violating_runs=%ld cancels=%ld midrun_cleanups=%ld main_context_posts=%ld second_sessions=%ld\n",
+         shm->loops, shm->programs, shm->executions, shm->transitions, shm->states, shm->traces, shm->qchecks, shm->viol_runs, shm->cancels, shm->cleanups_mid, shm->mainposts, shm->sessions2);
   printf("@INFO %s part %ld/%ld: scripts=%ld programs_total=%ld NR=%d maxlen=%d maxtotal=%d maxacts=%d param=%d restarts=%d\n", tag.c_str(), part, nparts, NS, total, NR, maxlen, maxtotal, maxacts, param, restarts);
   return 0;
 }
@@ -495,7 +590,8 @@ static int enum_main(int argc, char **argv) {
 static int replay_main(const std::string &t) {
   Prog p; std::vector<Act> sched;
   size_t q = t.find("param="); if (q != std::string::npos) p.param = atoi(t.c_str() + q + 6);
-  for (int r = 0; r < 3; r++) {
+  if (getenv("C18_NOREUSE")) g_reuse = false;
+  for (int r = 0; r < MAXNR; r++) {
     std::string key = "r" + std::to_string(r) + "=["; size_t a = t.find(key); if (a == std::string::npos) break; a += key.size(); size_t b = t.find(']', a);
     p.nr = r + 1; std::string body = t.substr(a, b - a); size_t i = 0;
     while (i < body.size()) { size_t j = body.find(' ', i); if (j == std::string::npos) j = body.size(); if (j > i) { int o = op_by_name(body.substr(i, j - i)); if (o < 0 || p.s[r].n >= MAXLEN) { fprintf(stderr, "bad op\n"); return 2; } p.s[r].op[p.s[r].n++] = (uint8_t)o; } i = j + 1; }
@@ -503,6 +599,8 @@ static int replay_main(const std::string &t) {
   size_t a = t.find("main=["); if (a != std::string::npos) { a += 6; size_t b = t.find(']', a); std::string body = t.substr(a, b - a); size_t i = 0;
     while (i < body.size()) { size_t j = body.find(' ', i); if (j == std::string::npos) j = body.size(); std::string w = body.substr(i, j - i); i = j + 1; if (w.empty()) continue;
       if (w == "pass") sched.push_back({A_PASS, 0}); else if (w == "cleanup") sched.push_back({A_CLEANUP, 0});
+      else if (w == "send") sched.push_back({A_SEND, 0}); else if (w == "rel") sched.push_back({A_REL, 0}); else if (w == "bpost") sched.push_back({A_BPOST, 0});
+      else if (w == "cpost1") sched.push_back({A_CPOST1, 0}); else if (w == "cpost2") sched.push_back({A_CPOST2, 0});
       else if (w.compare(0, 8, "resume(r") == 0) sched.push_back({A_RESUME, (uint8_t)atoi(w.c_str() + 8)}); else if (w.compare(0, 8, "cancel(r") == 0) sched.push_back({A_CANCEL, (uint8_t)atoi(w.c_str() + 8)}); } }
   shm = (Shm *)mmap(nullptr, sizeof(Shm), PROT_READ | PROT_WRITE, MAP_SHARED | MAP_ANONYMOUS, -1, 0);
   signal(SIGALRM, on_alarm); signal(SIGPROF, on_alarm); arm_watchdog();
@@ -517,6 +615,6 @@ int main(int argc, char **argv) {
   setvbuf(stdout, nullptr, _IOLBF, 0);
   if (argc >= 3 && !strcmp(argv[1], "replay")) return replay_main(argv[2]);
   if (argc >= 10 && !strcmp(argv[1], "enum")) return enum_main(argc, argv);
-  fprintf(stderr, "usage: %s enum <tag> <ops> <NR> <maxlen> <maxacts> <param> <part> <nparts> | replay \"<text>\"\n", argv[0]);
+  fprintf(stderr, "usage: %s enum <tag> <ops> <NR> <maxlen> <maxacts> <param> <part> <nparts> [maxtotal [flags]] | replay \"<text>\"\n", argv[0]);
   return 2;
 }
